@@ -298,6 +298,37 @@ func main() {
 		res.evidence["coverage"].(map[string]interface{})["bounded"] = boundedRes
 		for _, b := range boundedRes {
 			if b["result"] != "ok" {
+				// a failing sub-check that is a recorded known finding is reported as such; anything else is a violation
+				known, _ := loadKnown(*verif)
+				failing := map[string]bool{}
+				for _, ln := range strings.Split(b["output"].(string), "\n") {
+					if strings.HasPrefix(ln, "BOUNDED-FAIL check=") {
+						failing[strings.TrimRight(strings.Fields(ln[len("BOUNDED-FAIL check="):])[0], ":")] = true
+					}
+				}
+				allKnown := len(failing) > 0
+				var kl []string
+				for chk := range failing {
+					found := false
+					for _, k := range known {
+						if k.prop == *prop && k.obl == "bounded:"+b["name"].(string)+"#"+chk {
+							found = true
+							kl = append(kl, fmt.Sprintf("KNOWN-FINDING: property=%s bounded:%s#%s %s", *prop, b["name"], chk, k.desc))
+						}
+					}
+					if !found {
+						allKnown = false
+					}
+				}
+				sort.Strings(kl)
+				for _, l := range kl {
+					fmt.Println(l)
+				}
+				if allKnown {
+					b["result"] = "known-findings-only"
+					delete(b, "output")
+					continue
+				}
 				path := filepath.Join(*verif, "out", "replay", *prop, "bounded_"+b["name"].(string)+".txt")
 				os.MkdirAll(filepath.Dir(path), 0o755)
 				os.WriteFile(path, []byte(fmt.Sprintf("property: %s\nbounded check %s (bound %v) failed on the real code\n\n%s\n", *prop, b["name"], b["bound"], b["output"])), 0o644)
@@ -855,7 +886,7 @@ func runBounded(pc *PropCfg, prop, tier, repo, verif string, skip bool) []map[st
 		t0 := time.Now()
 		o, _ := cmd.CombinedOutput()
 		os.RemoveAll(dir)
-		res := map[string]interface{}{"name": b.Name, "bound": bound, "what": b.What, "cases": 0, "result": "error", "wall_s": round2(time.Since(t0).Seconds()), "output": truncate(string(o), 4000)}
+		res := map[string]interface{}{"name": b.Name, "bound": bound, "what": b.What, "cases": 0, "result": "error", "wall_s": round2(time.Since(t0).Seconds()), "output": boundedOutput(string(o))}
 		for _, ln := range strings.Split(string(o), "\n") {
 			if strings.HasPrefix(ln, "BOUNDED ") {
 				for _, f := range strings.Fields(ln)[1:] {
@@ -882,6 +913,29 @@ func runBounded(pc *PropCfg, prop, tier, repo, verif string, skip bool) []map[st
 		out = append(out, res)
 	}
 	return out
+}
+
+// boundedOutput keeps what matters of a stand-in's output: its BOUNDED lines (with their indented continuation
+// lines), panics and test failures — the library's own log lines are dropped.
+func boundedOutput(o string) string {
+	var keep []string
+	cont := false
+	for _, ln := range strings.Split(o, "\n") {
+		switch {
+		case strings.HasPrefix(ln, "BOUNDED"):
+			keep, cont = append(keep, ln), true
+		case cont && strings.HasPrefix(ln, "  "):
+			keep = append(keep, ln)
+		case strings.HasPrefix(ln, "panic:") || strings.HasPrefix(ln, "--- FAIL") || strings.HasPrefix(ln, "FAIL") || strings.Contains(ln, "DATA RACE") || strings.HasPrefix(ln, "ok "):
+			keep, cont = append(keep, ln), false
+		default:
+			cont = false
+		}
+	}
+	if len(keep) == 0 {
+		return truncate(o, 4000)
+	}
+	return truncate(strings.Join(keep, "\n"), 16000)
 }
 
 func fileExists(p string) bool {
